@@ -65,8 +65,18 @@ def kind_from_real(k):
     raise ValueError("unexpected kind %r" % (k,))
 
 
-def coq_str(s):
+# frequent strings are bound once in the header of the Coq case files (string literals are
+# slow to elaborate); everything else is written as a literal
+KNOWN_STRINGS = {"p": "s_p", "q": "s_q", "a": "s_a", "b": "s_b", "c": "s_c", "i": "s_i", "j": "s_j",
+                 "zz": "s_zz", "<t>": "s_t", "<state>y": "s_y", "u": "s_u", "v": "s_v"}
+
+
+def coq_lit(s):
     return '"' + s.replace('"', '""') + '"'
+
+
+def coq_str(s):
+    return KNOWN_STRINGS.get(s) or coq_lit(s)
 
 
 def kind_to_coq(s):
@@ -509,7 +519,8 @@ def shrink_prog(prog, cls):
 
 HEADER = ("From Coq Require Import List String Bool Arith.\nImport ListNotations.\n"
           "From Dagrt Require Import GenC14 Unify KindInfer KindInferCfg.\nOpen Scope string_scope.\n"
-          "Inductive case :=\n"
+          + "".join("Definition %s : string := %s.\n" % (v, coq_lit(k)) for k, v in sorted(KNOWN_STRINGS.items()))
+          + "Inductive case :=\n"
           "| CU2 (a b : okind) (r : res okind)\n"
           "| CU3 (a b c : okind) (l r : res okind)\n"
           "| CP (forced : list (string * string * okind)) (stmts : list qitem)\n"
@@ -756,7 +767,9 @@ def main(tier):
             terms.append(ct)
             origin.append(("program", prog, runs))
             n_model_runs += len(runs)
-        mism, n_eval, cerrs = common.eval_cases(PID, HEADER, terms, "chk", shard=150)
+        # one wave of coqc processes: loading the libraries dominates the cost of a shard
+        shard = max(150, (len(terms) + common.NPROC - 1) // common.NPROC)
+        mism, n_eval, cerrs = common.eval_cases(PID, HEADER, terms, "chk", shard=shard)
         errors += cerrs
     elif not model_ready:
         errors.append("model not built")
@@ -828,7 +841,8 @@ def main(tier):
         "expressions are constants, variables, sums, products, quotients and comparisons; function calls, "
         "powers, min/max, logical operators and subscript expressions are outside the model",
         "pymbolic.flatten is external: the model receives flatten(stmt.expression) computed by the real pymbolic",
-        "C14_order_independent_partial assumes no kind unification fails in either run (see design/C14.md)",
+        "statement inputs: no empty Product in a flattened right-hand side, forced kinds are not None; "
+        "fuel exhaustion of the model's loops is excluded by hypothesis (see design/C14.md)",
     ]
     return rep.finish("proof")
 
